@@ -318,7 +318,7 @@ fn main() {
             }
         }
     }
-    let n = ctx.budget(20000, 600000);
+    let n = ctx.budget(60000, 2000000);
     for _ in 0..n {
         if let Some(mut rng) = ctx.random_case() {
             match rng.below(6) {
